@@ -61,9 +61,18 @@ type lgCapture struct {
 	trace   *[]string
 	min     slog.Level // records below are not enabled (zero value with all = true: everything is)
 	all     bool
+	// onEnabled, when set, runs once inside the next Enabled call - i.e. after the Logger of a request has called LogAttrs
+	// and before slog has built the record: the place where another request served through the same Logger overlaps
+	onEnabled func()
 }
 
-func (h *lgCapture) Enabled(_ context.Context, l slog.Level) bool { return h.all || l >= h.min }
+func (h *lgCapture) Enabled(_ context.Context, l slog.Level) bool {
+	if f := h.onEnabled; f != nil {
+		h.onEnabled = nil
+		f()
+	}
+	return h.all || l >= h.min
+}
 func (h *lgCapture) WithAttrs([]slog.Attr) slog.Handler       { return h }
 func (h *lgCapture) WithGroup(string) slog.Handler            { return h }
 func (h *lgCapture) Handle(_ context.Context, r slog.Record) error {
@@ -318,6 +327,15 @@ func runLogger(fields []string) string {
 	if err != nil {
 		return "I=bad-router:" + err.Error()
 	}
+	// a fifth router on which another request (B) is served through the same Logger while the record of the item's
+	// request (A) is being emitted: A's record must still be A's (nothing of a record is shared between requests)
+	var trace5 []string
+	capP := &lgCapture{trace: &trace5, all: true}
+	withP, err := lgRouter(true, capP, &trace5, gres, rres, cust, wrap)
+	if err != nil {
+		return "I=bad-router:" + err.Error()
+	}
+	itemB := []string{"nomethod", "DELETE", hx("b.example.org"), hx("/r/abc"), "", hx("203.0.113.77:4000"), hx("203.0.113.77"), "d"}
 	var is, js, oracle []string
 	for _, it := range strings.Split(fields[1], ";") {
 		if it == "" {
@@ -365,6 +383,16 @@ func runLogger(fields []string) string {
 		}
 		if strings.Join(capW.records, "\x01") != strings.Join(wantW, "\x01") {
 			oracle = append(oracle, fmt.Sprintf("item %s: a handler enabled from WARN up received %q, the records of these levels are %q", it, capW.records, wantW))
+		}
+		trace5, capP.records = trace5[:0], nil
+		capP.onEnabled = func() { _ = lgServe(withP, &trace5, itemB) }
+		_ = lgServe(withP, &trace5, item)
+		overlapped := capP.onEnabled == nil
+		capP.onEnabled = nil
+		if n >= 1 && overlapped {
+			if k := len(capP.records); k == 0 || capP.records[k-1] != cap.records[n-1] {
+				oracle = append(oracle, fmt.Sprintf("item %s: with another request served through the same Logger while the record was being emitted the records are %q, alone the record is %q", it, capP.records, cap.records[n-1]))
+			}
 		}
 		is = append(is, itoa(n)+":"+rec+":"+keys+":"+strings.Join(trace, ".")+":"+pan)
 		// the property fixes the level for 2xx-5xx only: for any other reported status the level is not compared
